@@ -415,6 +415,8 @@ func streamConc(c *Ctx) {
 	constructionErrorProbe(c)
 	errorDetailBleedProbe(c)
 	requestAcrossClientsProbe(c)
+	sharedHandlerErrorProbe(c)
+	requestHeaderAfterCloseProbe(c)
 	sharedContextErrorProbe(c)
 	negotiationPerCallProbe(c)
 	sharedDecodeTargetProbe(c)
@@ -585,6 +587,99 @@ func requestAcrossClientsProbe(c *Ctx) {
 		})
 		if got != "ok" {
 			c.Fail("conc-request-across-clients", desc, got, "each call's result is what the same call would produce alone")
+		}
+	}
+}
+
+// sharedHandlerErrorProbe (C13; the race detector is the oracle): a handler may return one
+// preallocated *connect.Error from every call - the library reads it; it does not write into it
+// (round 12, C13-mq: Error.Meta() allocates lazily inside the value, so calling it on the
+// handler's error is a write, and concurrent calls race on it).
+func sharedHandlerErrorProbe(c *Ctx) {
+	for _, proto := range []string{"connect", "grpc", "grpcweb"} {
+		desc := proto + ": a server-stream handler returns one shared *connect.Error from 8 calls that start together (25 rounds, a fresh error each)"
+		c.Begin(desc)
+		c.Count("shared-handler-error-probe")
+		got := safely(func() string {
+			var bad int32
+			for round := 0; round < 25; round++ {
+				shared := connect.NewError(connect.CodeAborted, errors.New("try again"))
+				h := connect.NewServerStreamHandler("/s/m", func(ctx context.Context, r *connect.Request[[]byte], s *connect.ServerStream[[]byte]) error {
+					_ = s.Send(&[]byte{1})
+					return shared
+				}, connect.WithCodec(rawCodec{"raw"}))
+				start := make(chan struct{})
+				var wg sync.WaitGroup
+				for g := 0; g < 8; g++ {
+					wg.Add(1)
+					go func() {
+						defer wg.Done()
+						cl := connect.NewClient[[]byte, []byte](&inprocClient{h: h}, "http://h/s/m", protoOpts(proto)...)
+						<-start
+						st, err := cl.CallServerStream(context.Background(), connect.NewRequest(&[]byte{1}))
+						if err != nil {
+							atomic.AddInt32(&bad, 1)
+							return
+						}
+						for st.Receive() {
+						}
+						if connect.CodeOf(st.Err()) != connect.CodeAborted {
+							atomic.AddInt32(&bad, 1)
+						}
+						_ = st.Close()
+					}()
+				}
+				close(start)
+				wg.Wait()
+			}
+			return fmt.Sprintf("%d of 200 calls did not end with the handler's error", atomic.LoadInt32(&bad))
+		})
+		if got != "0 of 200 calls did not end with the handler's error" {
+			c.Fail("conc-shared-handler-error", desc, got, "each call's result is what the same call would produce alone")
+		}
+	}
+}
+
+// requestHeaderAfterCloseProbe (C13): the request headers a caller holds (RequestHeader()) are
+// written by the library before the request-side call that starts the request returns - not from
+// another goroutine afterwards: what the caller reads after CloseRequest is what it reads when
+// the call is over, the timeout the library computed included (round 12, C13-mr; under the race
+// detector the late write is also a reported race).
+func requestHeaderAfterCloseProbe(c *Ctx) {
+	h := connect.NewBidiStreamHandler("/s/m", func(ctx context.Context, s *connect.BidiStream[[]byte, []byte]) error {
+		for {
+			if _, err := s.Receive(); err != nil {
+				return nil
+			}
+		}
+	}, connect.WithCodec(rawCodec{"raw"}))
+	for _, proto := range []string{"connect", "grpc", "grpcweb"} {
+		desc := proto + ": bidi call under a deadline whose first request-side call is CloseRequest; RequestHeader() right afterwards and again when the call is over"
+		c.Begin(desc)
+		c.Count("request-header-after-close-probe")
+		got := safely(func() string {
+			for i := 0; i < 20; i++ {
+				cl := connect.NewClient[[]byte, []byte](&inprocClient{h: h}, "http://h/s/m", protoOpts(proto)...)
+				ctx, cancel := context.WithTimeout(context.Background(), 30*time.Second)
+				st := cl.CallBidiStream(ctx)
+				_ = st.CloseRequest()
+				first := fmt.Sprint(len(st.RequestHeader().Values("Grpc-Timeout")) + len(st.RequestHeader().Values("Connect-Timeout-Ms")))
+				for {
+					if _, err := st.Receive(); err != nil {
+						break
+					}
+				}
+				_ = st.CloseResponse()
+				last := fmt.Sprint(len(st.RequestHeader().Values("Grpc-Timeout")) + len(st.RequestHeader().Values("Connect-Timeout-Ms")))
+				cancel()
+				if first != "1" || last != "1" {
+					return fmt.Sprintf("timeout header values seen right after CloseRequest: %s, after the call: %s", first, last)
+				}
+			}
+			return "ok"
+		})
+		if got != "ok" {
+			c.Fail("conc-request-header-late", desc, got, "the headers the caller holds are complete when the request-side call returns")
 		}
 	}
 }
